@@ -32,10 +32,10 @@ func run(c *hlib.Ctx) {
 		lakeh.RunPlan(c, lakeh.Plan{
 			Opt:      lakeh.Options{Prop: "C13", Commits: true, StopOnFail: true},
 			Profiles: []lakeh.Profile{guarded},
-			Quick:    50, Thorough: 1200,
+			Quick:    50, Thorough: 800,
 		})
 	}
 	if c.Want("reader") && c.Replay == nil {
-		lakeh.RunReaders(c, c.N(30, 600))
+		lakeh.RunReaders(c, c.N(30, 400))
 	}
 }
